@@ -499,6 +499,8 @@ func (w *wireWorld) apply3(kind string, p *tokStream, op string) string {
 			return o
 		}
 		return "x" + hx(b) + " " + o
+	case "mrtr.retry":
+		return mrtrRetry(p)
 	case "ref.rt":
 		t, ok1 := p.str()
 		n, ok2 := p.str()
@@ -600,6 +602,175 @@ func (w *wireWorld) apply3(kind string, p *tokStream, op string) string {
 		return guarded(15*time.Second, func() string { return w.pg.list(method, cursor) })
 	}
 	return "bad-op"
+}
+
+// ------------------------------------------------------------------ multi round trip: the retried request
+
+// mrtrRetry: `mrtr.retry <tool|toolraw|prompt|resource> s<state> (s<key> <roots|elicit|sampling|samplingt> <J body>)*`.
+// The bodies become typed InputResponse values; setMultiRoundTripRetryParams puts them and the state on a request
+// of the method; observed: the two members of the marshalled params, and what decoding those params again gives.
+func mrtrRetry(p *tokStream) string {
+	method := p.next()
+	state, ok := p.str()
+	if !ok {
+		return "bad-op"
+	}
+	responses := InputResponseMap{}
+	for !p.done() {
+		k, ok1 := p.str()
+		kind := p.next()
+		body, ok2 := p.jv()
+		if !ok1 || !ok2 {
+			return "bad-op"
+		}
+		var v InputResponse
+		switch kind {
+		case "roots":
+			v = &ListRootsResult{}
+		case "elicit":
+			v = &ElicitResult{}
+		case "sampling":
+			v = &CreateMessageResult{}
+		case "samplingt":
+			v = &CreateMessageWithToolsResult{}
+		default:
+			return "bad-op"
+		}
+		if err := json.Unmarshal([]byte(body.text()), v); err != nil {
+			return "bad-op"
+		}
+		responses[k] = v
+	}
+	if len(responses) == 0 {
+		responses = nil
+	}
+	var req Request
+	var params, back any
+	switch method {
+	case "tool":
+		x := &CallToolParams{Name: "t"}
+		req, params, back = &ClientRequest[*CallToolParams]{Params: x}, x, &CallToolParams{}
+	case "toolraw":
+		x := &CallToolParamsRaw{Name: "t"}
+		req, params, back = &ClientRequest[*CallToolParamsRaw]{Params: x}, x, &CallToolParamsRaw{}
+	case "prompt":
+		x := &GetPromptParams{Name: "p"}
+		req, params, back = &ClientRequest[*GetPromptParams]{Params: x}, x, &GetPromptParams{}
+	case "resource":
+		x := &ReadResourceParams{URI: "file:///r"}
+		req, params, back = &ClientRequest[*ReadResourceParams]{Params: x}, x, &ReadResourceParams{}
+	default:
+		return "bad-op"
+	}
+	setMultiRoundTripRetryParams(req, responses, state)
+	data, err := json.Marshal(params)
+	if err != nil {
+		return "marshal-error"
+	}
+	v, err := parseJSON(data)
+	if err != nil {
+		return "unparsable"
+	}
+	member := func(k string) string {
+		if m, ok := v.get(k); ok {
+			return m.tok()
+		}
+		return "-"
+	}
+	out := member("inputResponses") + " " + member("requestState") + " | "
+	if err := json.Unmarshal(data, back); err != nil {
+		return out + "err"
+	}
+	var m InputResponseMap
+	var st string
+	switch x := back.(type) {
+	case *CallToolParams:
+		m, st = x.InputResponses, x.RequestState
+	case *CallToolParamsRaw:
+		m, st = x.InputResponses, x.RequestState
+	case *GetPromptParams:
+		m, st = x.InputResponses, x.RequestState
+	case *ReadResourceParams:
+		m, st = x.InputResponses, x.RequestState
+	}
+	keys := make([]string, 0, len(m))
+	for k := range m {
+		keys = append(keys, k)
+	}
+	sort.Strings(keys)
+	parts := []string{"ok", "s" + hxs(st)}
+	for _, k := range keys {
+		kind := "?"
+		switch m[k].(type) {
+		case *ListRootsResult:
+			kind = "roots"
+		case *ElicitResult:
+			kind = "elicit"
+		case *CreateMessageWithToolsResult, *CreateMessageResult:
+			kind = "sampling"
+		}
+		parts = append(parts, "s"+hxs(k), kind)
+	}
+	return out + strings.Join(parts, " ")
+}
+
+// genRetry: a retry op — 0-3 fulfilled responses (typed values of the SDK, marshalled: the canonical bodies) under
+// distinct keys, and a request state (any string, also empty)
+func genRetry(r *rand.Rand) (string, []string) {
+	method := []string{"tool", "toolraw", "prompt", "resource"}[r.Intn(4)]
+	state := ""
+	if r.Intn(4) > 0 {
+		state = genStr(r)
+	}
+	op := "mrtr.retry " + method + " s" + hxs(state)
+	tags := []string{"mrtr:retry", "mrtr:" + method}
+	if state == "" {
+		tags = append(tags, "mrtr:no-state")
+	}
+	n := r.Intn(4)
+	if n == 0 {
+		tags = append(tags, "mrtr:no-responses")
+	}
+	for i := 0; i < n; i++ {
+		var v any
+		kind := ""
+		switch r.Intn(4) {
+		case 0:
+			kind = "roots"
+			x := &ListRootsResult{}
+			if r.Intn(5) > 0 {
+				x.Roots = []*Root{}
+				for j, m := 0, r.Intn(3); j < m; j++ {
+					x.Roots = append(x.Roots, &Root{URI: "file:///" + fmt.Sprint(j), Name: genStr(r)})
+				}
+			}
+			v = x
+		case 1:
+			kind = "elicit"
+			x := &ElicitResult{Action: []string{"accept", "decline", "cancel", "Accept"}[r.Intn(4)]}
+			if r.Intn(2) == 0 {
+				x.Content = map[string]any{genStr(r): genStr(r), "n": float64(r.Intn(100)), "ok": r.Intn(2) == 0}
+			}
+			v = x
+		case 2:
+			kind = "sampling"
+			v = &CreateMessageResult{Role: "assistant", Model: genStr(r), Content: &TextContent{Text: genStr(r)}, StopReason: []string{"", "endTurn", "MaxTokens"}[r.Intn(3)]}
+		default:
+			kind = "samplingt"
+			v = &CreateMessageWithToolsResult{Role: "assistant", Model: genStr(r), Content: []Content{&TextContent{Text: genStr(r)}}}
+		}
+		data, err := json.Marshal(v)
+		if err != nil {
+			continue
+		}
+		body, err := parseJSON(data)
+		if err != nil {
+			continue
+		}
+		op += fmt.Sprintf(" s%s %s %s", hxs(fmt.Sprintf("%s#%d", genStr(r), i)), kind, body.tok())
+		tags = append(tags, "mrtr:"+kind)
+	}
+	return op, tags
 }
 
 // ------------------------------------------------------------------ the CompleteReference codec
